@@ -50,6 +50,8 @@ fn i5_yaml_slice_loop() {
 	kani::assume(len <= 3);
 	kani::assume(buf[0] != 0 && buf[1] != 0 && buf[2] != 0 && buf[0] < 0x80 && buf[1] < 0x80 && buf[2] < 0x80); // ASCII, UTF-8 by detection
 	let data = &buf[..len];
+	// (a stream without any document is the subject of i5_yaml_docless_slice)
+	kani::assume((len > 0 && !is_blank(buf[0])) || (len > 1 && !is_blank(buf[1])) || (len > 2 && !is_blank(buf[2])));
 	let mut out = RecOut::new();
 	out.fail_at_doc = kani::any();
 	let r = transcode(input::Handle::from_slice(data), &mut out);
@@ -80,6 +82,31 @@ fn i5_yaml_slice_loop() {
 	assert!(r.is_ok() == (first_fail >= wn), "I5y: Ok exactly when every document translated");
 	kani::cover!(r.is_ok() && out.n == 3, "I5y three documents");
 	core::mem::forget(r);
+}
+
+/// I5v: a YAML stream that contains no document at all (blank lines, comments) from a SLICE. The same stream from a
+/// reader goes through the chunker, which yields no document (K9: STREAM-END without a pending document is None), so
+/// transcode_reader succeeds without ever calling the output (K7). C02 demands the same verdict and output from the
+/// slice, so the fast path must not hand the output anything either - in particular not the void document that
+/// serde_yaml's iterator produces for a document-less stream, which the streaming transcoder refuses (its visitor has
+/// no visit_none; the recording output used here refuses it in the same way).
+#[kani::proof]
+#[kani::stub(transcode_reader, stub_transcode_reader)]
+#[kani::unwind(8)]
+fn i5_yaml_docless_slice() {
+	let buf: [u8; 3] = kani::any();
+	let len: usize = kani::any();
+	kani::assume(len <= 3);
+	kani::assume(is_blank(buf[0]) && is_blank(buf[1]) && is_blank(buf[2]));
+	let data = &buf[..len];
+	let mut out = RecOut::new();
+	let r = transcode(input::Handle::from_slice(data), &mut out);
+	let ok = r.is_ok();
+	core::mem::forget(r);
+	assert!(unsafe { SLOW == 0 }, "I5v: blank ASCII is UTF-8, the fast path is taken");
+	assert!(ok && out.n == 0 && out.de_errors == 0, "I5v: a document-less YAML stream from a slice translates like the same stream from a reader: success, the output is never called");
+	kani::cover!(len == 0, "I5v empty input");
+	kani::cover!(len == 3, "I5v three blank bytes");
 }
 
 /// I4y: yaml::Output framing: "---\n" before every document; short writes; write faults.
